@@ -216,7 +216,6 @@ func hexTok(b []byte) string {
 	return hex.EncodeToString(b)
 }
 
-
 // ---------------------------------------------------------------- raw: RawBytes vs serBytes
 
 var hostilePieces = []string{
